@@ -34,6 +34,8 @@ KINDS = {
     "liststr": {"type": "array", "items": {"type": "string"}},
     "listdate": {"type": "array", "items": {"type": "string", "format": "date"}},
     "nullstr": {"type": "string", "nullable": True},
+    "const": {"const": "csv"},                                          # Literal[...] in the signature: needs its own import
+    "unionstrint": {"oneOf": [{"type": "string"}, {"type": "integer"}]},
 }
 HEADER_KINDS = ["str", "int", "num", "bool", "enum"]
 PATH_KINDS = ["str", "int", "enum", "date"]
@@ -194,6 +196,14 @@ class ArgBuilder:
             n = 0 if I.branch_free() else 1
             v = SObj(datetime.date, {"__of__": SObj(datetime.datetime, {"__iso__": SStr(s)})})
             return SList([v][:n]), SList([SStr(s)][:n]), None
+        if kind == "const":
+            return "csv", "csv", "csv"                 # the only admitted value
+        if kind == "unionstrint":
+            if I.branch_free():
+                s = SStr(self.fresh(hint, S))
+                return s, s, s
+            i = SInt(self.fresh(hint, z3.IntSort()))
+            return i, i, SStr(Z.int_str(i.t))
         raise Unsupported(kind)
 
 
